@@ -35,10 +35,10 @@ ASSUMPTIONS = [
     'an iterable input is read as the one string "\\n".join(chunks): a chunk may hold several lines, and a chunk that ends in a newline '
     'contributes one more (blank) physical line - callers pass lines WITHOUT their trailing newline (file lines with it would count double); '
     'the forms stream exercises both and a lone \\r is never generated',
-    'non-ASCII letters/digits outside string literals and exponents above 200000 are outside the Lean model (ASCII \\w/\\d, exact '
-    'rational literals): such texts are judged by the oracles on the implementation only',
+    'exponents above 200000 are outside the Lean model (exact rational literals): such texts are judged by the oracles on the '
+    'implementation only (non-ASCII letters / digits are inside: \\w and \\d of the model are the Unicode classes of re)',
     'host-only string values (lone surrogates, and every non-ASCII blank / digit / letter class of CPython re) cannot be written in the Lean '
-    'model (String = scalar values, ASCII classes): the host-text stream has implementation-side oracles only; the message formatting '
+    'model (String = scalar values): the host-text stream has implementation-side oracles only; the message formatting '
     '(elision, caret) has no driver operation: theorems on the model arithmetic + exhaustive implementation-side sweep (caret stream)',
 ]
 LEVEL_TEXT = ('Theorems about the Lean model of parse_script (line splitter + continuation joiner, line classifier, token scanners, '
@@ -410,15 +410,12 @@ def gen_numbers(ctx, rng):
 
 
 R_EXPONENT = re.compile(r'e[+-](\d+)')
-R_NON_ASCII_WORD = re.compile(r'[^\W\x00-\x7f]')
 
 
 def model_can(text):
     """The model keeps literals as exact rationals: 10**exponent must stay writable (exponents up to 200000); everything
-    else (any number of mantissa digits) goes to the model too. The model's \\w and \\d are the ASCII ones (ExprScan): a text with
-    another letter or digit is judged by the oracles on the implementation only."""
-    if R_NON_ASCII_WORD.search(text):
-        return False
+    else (any number of mantissa digits, non-ASCII letters and digits: the model's \\w and \\d are the Unicode classes) goes to the
+    model too."""
     return all(len(m.group(1)) <= 7 and int(m.group(1)) <= 200000 for m in R_EXPONENT.finditer(text))
 
 
@@ -1659,8 +1656,8 @@ def caret_stream(ctx, parser):
 # look-alikes of the punctuation - at every place of a script (string literal, comment, first character of the text / of
 # a later line, operand, inside a name, label, include URL, bracketed name, around a continuation backslash, after a
 # block keyword, in a long elided line, with CRLF), once, twice and 64 times, as one string and as lines in an iterable.
-# The Lean model has no such values (String holds scalar values only; \\w, \\d, \\s are ASCII there): implementation-side
-# oracles only.
+# The Lean model has no such values (String holds scalar values only): implementation-side oracles only (the scalar ones of these
+# characters reach the model through the other streams: \\w, \\d, \\s of the model are the Unicode classes).
 # ---------------------------------------------------------------------------------------------------------------------
 
 HOST_CHARS = [
@@ -1752,7 +1749,7 @@ def host_text_stream(ctx, parser):
                                  'comment, first character of the text / of a later line, operand, name, number, label, jump, include, bracketed '
                                  'name, around a continuation backslash, after a block keyword, lines elided in the message, CRLF) x 1 / 2 / 64 '
                                  'repetitions, start line 1 or offset, as one string and as lines in an iterable / str subclass. Oracles on the '
-                                 'implementation only (the Lean String has scalar values only and ASCII classes): only BareScriptParserError '
+                                 'implementation only (the Lean String has scalar values only): only BareScriptParserError '
                                  'escapes; a reported error names a logical line of the text, its text, a column inside it, caret under that '
                                  'character; prepending lines shifts the number; an accepted text keeps its string literal and every line has an '
                                  'effect; the iterable form gives the same outcome. non-trivial = every case')
